@@ -109,6 +109,15 @@ def run(tier):
                     jobs.append(dict(groups=scenario_groups(api, bool(rej)), options=opts, api=api, cdefs=cdefs, flex_args=fa, knobs=kn,
                                      tag="%s/%s/%s%s" % (api, PATHS[di], "reject" if rej else "plain", "/asan" if san else ""), san=san,
                                      path=PATHS[di], driver_args=["-H", "4000"]))
+    # the start-condition stack grows by reallocation (first growth at the 26th push): every token pushes the current condition
+    for api in ("NR", "R", "C99"):
+        sarg = ", yyscanner" if api in ("R", "C99") else ""
+        act = "{ yy_push_state(yystart()%s); }" % sarg
+        rules = [H.Rule(A, scs=["F"], action=act), H.Rule(NL, scs=["F"], action="{ }")]
+        g = H.Group([("F", True)], rules, "F", b"a\n", 0, [b"a" * 30 + b"\n", b"a" * 55 + b"\n"], label="faults:stack")
+        opts = ["noyyalloc", "noyyrealloc", "noyyfree", "stack"] + (["reentrant"] if api == "R" else [])
+        jobs.append(dict(groups=[g], options=opts, api=api, cdefs=["VF_LEDGER", "VF_FAULTS"], flex_args=[], knobs={"VF_BUFSIZES": "0"},
+                         tag="%s/user/stack-growth/asan" % api, san=True, path="user", driver_args=["-H", "4000"]))
     tot = dict(fault_runs=0, fault_ok=0, alloc_faults=0, read_faults=0, executions=0)
     for job, res in pmap(H.run_groups_job, jobs, check=ck):
         if "worker_exception" in res:
